@@ -14,12 +14,15 @@ class Result:
         self.timeout = False
         self.sanlog = ''
         self.mode = ''
+        self.flood = False
 
     @property
     def abnormal(self):
         return self.sig is not None or self.timeout or bool(self.sanlog.strip()) or (self.rc is not None and self.rc >= 126)
 
     def crash_key(self, tool):
+        if self.flood:
+            return '%s:output-flood' % tool
         if self.timeout:
             return '%s:hang' % tool
         sig = self.sig if self.sig is not None else self.rc
@@ -51,7 +54,7 @@ def run(argv, workdir, stdin=b'', mode='pipe', timeout=20, extra_env=None, retry
     for attempt in (0, 1):
         clear_san_logs(logdir)
         r = _run_once(argv, workdir, stdin, mode, timeout if attempt == 0 else timeout * 4, extra_env, logdir)
-        if not r.timeout or not retry_timeout or attempt == 1:
+        if not r.timeout or not retry_timeout or attempt == 1 or r.flood:
             return r
     return r
 
@@ -125,7 +128,9 @@ def _run_once(argv, workdir, stdin, mode, timeout, extra_env, logdir):
                 del fds[fd]
             else:
                 fds[fd] += d
-                if len(fds[fd]) > 8_000_000:
+                if len(fds[fd]) > 64_000_000:
+                    # not a hang: the process is flooding its output; the run is cut and reported as such (inconclusive, not a verdict)
+                    res.flood = True
                     res.timeout = True
                     fds.clear()
                     break
